@@ -154,6 +154,9 @@ func Exec(c *Case) (nontrivial bool, labels []string, fail *vlib.Failure) {
 		if set.Err != nil && res.Err == nil && res.OK {
 			return nontrivial, keys(lab), vlib.Failf("C18:target-error-swallowed", "%s: target.Set failed with %v but the transaction succeeded", where, set.Err)
 		}
+		if set.NoChange && len(calls) > 0 {
+			return nontrivial, keys(lab), vlib.Failf("C18:calls-for-empty-change:proto-diff-empty", "%s: the change is empty (no proto update, no proto delete), yet the driver saw %s", where, seq(calls))
+		}
 		if set.WantDoc == "" {
 			lab["empty-document"] = true
 			if len(calls) > 0 {
